@@ -382,7 +382,7 @@ class Summariser:
                 return [f"allcomps({base.ref})"]
         if isinstance(n, ast.BinOp) and isinstance(n.op, ast.Add):
             return self._components(n.left, env) + self._components(n.right, env)
-        if isinstance(n, ast.ListComp):
+        if isinstance(n, (ast.ListComp, ast.GeneratorExp)):
             # [deepcopy(comp) for term in terms for comp in term.components]
             gens = n.generators
             elt = n.elt
@@ -501,7 +501,7 @@ class Summariser:
             if isinstance(n.op, ast.BitOr):
                 return Val("delegate", left=l, right=r, op="|")
             return self._nested_operator(n, l, r)
-        if isinstance(n, ast.ListComp):
+        if isinstance(n, (ast.ListComp, ast.GeneratorExp)):
             return self._comprehension(n, env)
         raise AnalysisError(f"algebra: unmodelled expression `{unparse(n)[:70]}` in {self.fn.qual}")
 
